@@ -104,7 +104,7 @@ class _Math(object):
             return _math.hypot(a, b)
         from .values import SymHypot
         ta, tb = to_real(a), to_real(b)
-        return SymHypot(z3.simplify(ta * ta + tb * tb))
+        return SymHypot(z3.simplify(ta * ta + tb * tb), None, (ta, tb))
 
     def sqrt(self, a):
         if self._conc(a):
